@@ -266,3 +266,55 @@ pub fn build_from_pos(pos: &Value) -> Result<Board, String> {
 pub fn rank_of(i: u8) -> Rank {
     Rank::from_u8(i).unwrap()
 }
+
+/// The builder used the way a careless client would: placing onto occupied squares (refused),
+/// removing and re-placing pieces, setting fields more than once - the result must still be the
+/// same board (C04: hash built from scratch; C05: constructors agree).
+pub fn build_messy_from_pos(pos: &Value, salt: u64) -> Result<Board, String> {
+    use chess_bitboard::Side;
+    let mut b = Board::builder();
+    let cells = pos["b"].as_array().ok_or("b")?;
+    let mut placed: Vec<(u8, Color, Piece)> = vec![];
+    for (i, cell) in cells.iter().enumerate() {
+        let ch = cell.as_str().ok_or("cell")?;
+        if ch != "." {
+            let (c, p) = piece_of_letter(ch).ok_or("letter")?;
+            b.place(sq(i as u8), c, p).map_err(|_| "occupied".to_string())?;
+            placed.push((i as u8, c, p));
+            // a second placement on the same square must be refused and change nothing
+            let other = if p == Piece::Queen { Piece::Knight } else { Piece::Queen };
+            if b.place(sq(i as u8), if (salt + i as u64) % 2 == 0 { c } else { !c }, other).is_ok() {
+                return Err("second placement on an occupied square was accepted".into());
+            }
+        } else if (salt + i as u64) % 7 == 0 {
+            // a stray piece that is removed again; removing an empty square is a no-op
+            let _ = b.place(sq(i as u8), Color::Black, Piece::Rook);
+            b.remove(sq(i as u8));
+            b.remove(sq(i as u8));
+        }
+    }
+    // take one piece off and put it back
+    if let Some(&(s, c, p)) = placed.get((salt as usize) % placed.len().max(1)) {
+        b.remove(sq(s));
+        b.place(sq(s), c, p).map_err(|_| "re-place".to_string())?;
+    }
+    b.turn(Color::Black);
+    b.turn(if pos["t"] == "w" { Color::White } else { Color::Black });
+    let mut cr = chess_movegen::CastleRights::empty();
+    for r in pos["cr"].as_array().ok_or("cr")? {
+        cr = match r.as_str().unwrap_or("") {
+            "K" => cr.with(Side::King, Color::White),
+            "Q" => cr.with(Side::Queen, Color::White),
+            "k" => cr.with(Side::King, Color::Black),
+            "q" => cr.with(Side::Queen, Color::Black),
+            _ => return Err("right".into()),
+        };
+    }
+    b.castle_rights(chess_movegen::CastleRights::full());
+    b.castle_rights(cr);
+    b.enpassant(File::from_u8(3));
+    b.enpassant(file_of(pos["ep"].as_i64().ok_or("ep")?));
+    b.half_move_clock(pos["hm"].as_u64().ok_or("hm")? as u16);
+    b.full_move_clock(pos["fm"].as_u64().ok_or("fm")? as u16);
+    b.build().map_err(|e| format!("{e:?}"))
+}
